@@ -8,8 +8,8 @@ SIZES = {"quick": 3000, "thorough": 150000}
 BATCH = 1500
 RULE = ("op sequences (load / loadres / clear / clearres) over flow, isolation, hotspot, circuit breaker, system, outlier; rule lists mix valid rules "
         "(boundary thresholds), one invalid rule per IsValidRule clause, nil elements, a small slice of foreign-resource and unbuildable rules, "
-        "verbatim reloads and reloads with exactly one field of one rule changed (every field of every record, both load paths; also as a fixed "
-        "systematic corpus); after every state op the return class, GetRules/GetRulesOfResource and probe traffic (flow, isolation, breaker, system) "
+        "verbatim reloads, reloads that duplicate an identical rule or drop one of two duplicates, and reloads with exactly one field of one rule changed (every field of every record, both load paths; also as a fixed "
+        "systematic corpus); after every state op the return class, GetRules/GetRulesOfResource, the identity classes of the controller objects in force (ctrlids) and probe traffic (flow, isolation, breaker, system) "
         "on the touched resources are compared; fresh rule objects per load; non-trivial = some load that changed state contained an invalid or nil "
         "rule and probes returned both pass and block; distinct by (module, op kind, rule-kind) sequence")
 
@@ -228,6 +228,8 @@ def observe(rng, mod, touched, everything=False):
                 ops.append(f"probe iso {res} {b}")
         elif mod == "cb":
             ops.append(f"probe cb {res}")
+        if mod in ("flow", "hot", "cb"):
+            ops.append(f"ctrlids {mod} {res}")
     ops.append(f"get {mod}")
     return ops
 
@@ -245,7 +247,20 @@ def gen_case(rng, cid, stats):
             kind, res, rules, touched = prev                                   # identical reload (fresh objects, same values)
             op = load_op(mod, kind, res, rules)
             kinds.append((mod, "again"))
-        elif r < 0.30 and prev and any(x is not None for x in prev[2]):
+        elif r < 0.20 and prev and mod in ("flow", "hot", "cb", "iso") and any(x is not None for x in prev[2]):
+            kind, res, rules, touched = prev                                   # duplicate an identical rule / drop one of two duplicates
+            rules = list(rules)
+            dups = [j for j, x in enumerate(rules) if x is not None and rules.count(x) > 1]
+            if dups and rng.random() < 0.35:
+                del rules[rng.choice(dups)]
+            else:
+                i = rng.choice([j for j, x in enumerate(rules) if x is not None])
+                rules.insert(rng.choice([i + 1, len(rules), 0]), dict(rules[i]))
+            stats["dup"] = stats.get("dup", 0) + 1
+            op = load_op(mod, kind, res, rules)
+            last[mod] = (kind, res, rules, touched)
+            kinds.append((mod, "dup", len(rules)))
+        elif r < 0.34 and prev and any(x is not None for x in prev[2]):
             kind, res, rules, touched = prev                                   # reload with exactly one field of one rule changed
             rules = list(rules)
             i = rng.choice([j for j, x in enumerate(rules) if x is not None])
@@ -261,8 +276,8 @@ def gen_case(rng, cid, stats):
             op = load_op(mod, kind, res, rules)
             last[mod] = (kind, res, rules, touched)
             kinds.append((mod, "delta", fld))
-        elif r < 0.60 or mod == "sys":
-            if r > 0.56 and mod == "sys":
+        elif r < 0.62 or mod == "sys":
+            if r > 0.58 and mod == "sys":
                 op, touched = "clear sys", []
                 kinds.append((mod, "clear"))
             else:
@@ -320,6 +335,24 @@ def _bases():
     }
 
 
+def dup_corpus():
+    """duplicate identical rules across reload pairs, every controller-bearing module, both load paths"""
+    cases = []
+    bases = _bases()
+    extra_flow = [dict(bases["flow"][0], cb=1, th2=2, maxQ=0, st=1000), dict(bases["flow"][0], cb=1, th2=1, maxQ=0)]
+    for mod in ("flow", "hot", "cb"):
+        for bi, A in enumerate(bases[mod] + (extra_flow if mod == "flow" else [])):
+            fld = {"flow": "th2", "hot": "th", "cb": "th2"}[mod]
+            B = dict(A, **{fld: [v for v in ALPHA[mod][fld] if v != A[fld]][0]})
+            res = A["res"]
+            for path in ("load", "loadres"):
+                ops = []
+                for lst in ([A], [A, A], [A], [A, A, A], [A, B], [A, A, B], [B, A, A], [A, A], [B, B, A]):
+                    ops += [load_op(mod, path, res, [dict(x) for x in lst])] + observe(None, mod, [res], everything=True)
+                cases.append(Case(f"dup-{mod}{bi}-{path}", ops, tags=("corpus", "dup")))
+    return cases
+
+
 def delta_corpus():
     cases = []
     for mod, bases in _bases().items():
@@ -348,7 +381,7 @@ _KINDS = {}
 
 
 def gen(ctx, n):
-    stats = ctx.cov.setdefault("generator_rule_kinds", {"valid": 0, "invalid": 0, "nil": 0, "unbuildable": 0, "foreign": 0, "delta": 0})
+    stats = ctx.cov.setdefault("generator_rule_kinds", {"valid": 0, "invalid": 0, "nil": 0, "unbuildable": 0, "foreign": 0, "delta": 0, "dup": 0})
     res = []
     for i in range(n):
         c, kinds = gen_case(ctx.rng, f"g{ctx.seed}-{ctx.cov.get('traces_validated_against_impl', 0)}-{i}", stats)
@@ -364,7 +397,7 @@ def corpus():
     for p in sorted(glob.glob(os.path.join(ROOT, "corpus", PROP, "*.ops"))):
         ops = [l.rstrip("\n") for l in open(p) if l.strip() and not l.startswith("#") and not l.startswith("case ")]
         res.append(Case(os.path.basename(p), ops, tags=("corpus",)))
-    return res + delta_corpus()
+    return res + dup_corpus() + delta_corpus()
 
 
 def densify(ops, rng):
